@@ -65,7 +65,18 @@ func TestMakeReplays(t *testing.T) {
 	}
 }
 
-var extraReplays = []func(t *testing.T){makeC02Replays, makeC08Replays}
+var extraReplays = []func(t *testing.T){makeC02Replays, makeC08Replays, makeC04Replays}
+
+func makeC04Replays(t *testing.T) {
+	mk := func(kind model.DefKind) *model.Package {
+		p := onePkg(&model.Def{Kind: kind, Name: "En0", Values: []model.EnumVal{{Symbol: "a", Value: 1, UValue: 1, Explicit: true}, {Symbol: "b", Value: 2, UValue: 2, Explicit: true}}},
+			proto(model.Field{Name: "e", Type: model.Ref("Main", "En0")}))
+		p.Namespace = "Main"
+		return p
+	}
+	writeReplay(t, "C04", "enum-flags-same-schema", "c04", "enum -> flags leaves the schema unchanged",
+		C04Case{Base: mk(model.DEnum), Edited: mk(model.DFlags), Edit: "enum-flags@En0", Class: "wire", Witness: "NDJSON form of every value changes"})
+}
 
 func uv(x uint64) *value.Value { return &value.Value{K: value.Uint, U: x} }
 
